@@ -32,6 +32,11 @@ func init() {
 			s := c.NewSim(cfg, pol)
 			s.now = T0
 			ids := []string{"P", "Q", "a:b", "a"}[:2+r.Intn(3)]
+			twins := r.Intn(4) == 0
+			if twins {
+				// ids that differ only in a character URLs treat specially: distinct promises, distinct registrations
+				ids = []string{"order/1", "order_1", "q?x", "q#x"}[:2+r.Intn(3)]
+			}
 			short := r.Intn(3) == 0
 			for _, id := range ids {
 				to := T0 + 100000
@@ -48,9 +53,13 @@ func init() {
 				id := pick(r, ids...)
 				switch r.Intn(3) {
 				case 0:
-					s.Submit("reg", reqSubscription(pick(r, "s1", "s2", "b:c"), id, T0+100000, `"poll://default/w"`))
+					s.Submit("reg", reqSubscription(pick(r, "s1", "s2", "b:c", "worker/7", "worker_7"), id, T0+100000, `"poll://default/w"`))
 				default:
-					s.Submit("reg", reqCallback(id, pick(r, "root1", "root2", "a", "a:b", "c"), T0+100000, `"poll://default/w"`))
+					roots := []string{"root1", "root2", "a", "a:b", "c"}
+					if twins {
+						roots = []string{"job/9", "job_9", "root1"}
+					}
+					s.Submit("reg", reqCallback(id, pick(r, roots...), T0+100000, `"poll://default/w"`))
 				}
 			}
 			for k := 0; k < nreg; k++ {
